@@ -50,7 +50,7 @@ def method(ex, base, name, e, st):
         key = "Circuit." + name
         if key in ex.summaries:
             return ex.invoke(ex.summaries[key], base, e, st)
-        raise Unsupported(f"no contract for Circuit.{name} (line {e.lineno})")
+        raise Unsupported(f"no contract for Circuit.{name} (statement #{e.lineno})")
     if isinstance(base, ModuleV):
         key = base.name + "." + name
         if key in ("nx.DiGraph",):
@@ -76,7 +76,7 @@ def method(ex, base, name, e, st):
         for k in (key, short, "tx." + name, name):
             if k in ex.summaries:
                 return ex.invoke(ex.summaries[k], None, e, st)
-        raise Unsupported(f"no contract for {key} (line {e.lineno})")
+        raise Unsupported(f"no contract for {key} (statement #{e.lineno})")
 
     # ---------------------------------------------------------------- networkx.DiGraph
     if isinstance(base, ObjRef) and base.kind == "DiGraph":
@@ -331,7 +331,7 @@ def method(ex, base, name, e, st):
         raise Unsupported("str." + name)
     if isinstance(base, StrLit) and name == "join":
         return Opaque("joined string")
-    raise Unsupported(f"method {name} of {base!r} (line {e.lineno})")
+    raise Unsupported(f"method {name} of {base!r} (statement #{e.lineno})")
 
 
 class DictItems:
